@@ -26,6 +26,19 @@ def findNlFrom (t : Text) (i : Nat) : Option Nat :=
   let k := (rest.takeWhile notNl).length
   if k < rest.length then some (i + k) else none
 
+/-- end (exclusive) of the range of a LINES selection whose upper end is `hi`:
+    `to = text.find("\n", to)` if that is `>= 0`, else `len(text) - 1` (an `int`: `-1` on the empty
+    text); `to += 1` in Vi mode.  The value is only used as a slice bound / printed, so it is clamped
+    to `0` when negative (Emacs mode on the empty text; `selectionRangesI` in `Model/C09Ext.lean`
+    keeps the sign for the correspondence). -/
+def linesEndI (t : Text) (hi : Nat) (vi : Bool) : Int :=
+  let to : Int := match findNlFrom t hi with
+    | some k => (k : Int)
+    | none => (t.length : Int) - 1
+  if vi then to + 1 else to
+
+def linesEnd (t : Text) (hi : Nat) (vi : Bool) : Nat := (linesEndI t hi vi).toNat
+
 /-- `Document.selection_ranges()` for cursor `cur`, `selection.original_cursor_position = orig`
     (`vi` = `vi_mode()`: the upper bound is included) -/
 def selectionRanges (t : Text) (cur orig : Nat) (ty : SelType) (vi : Bool) : List (Nat × Nat) :=
@@ -45,10 +58,7 @@ def selectionRanges (t : Text) (cur orig : Nat) (ty : SelType) (vi : Bool) : Lis
       else none
   | .lines =>
     let from_ := from_ - col { text := t, cur := from_ }
-    let to := match findNlFrom t to with
-      | some k => k
-      | none => t.length - 1
-    [(from_, if vi then to + 1 else to)]
+    [(from_, linesEnd t to vi)]
   | .chars => [(from_, if vi then to + 1 else to)]
 
 /-- the loop of `Document.cut_selection`: (remaining parts, cut parts, new cursor, last_to) -/
